@@ -15,10 +15,13 @@ not), every new value and both settings of `create_new_ok`:
                          the one-level laws that give `updTree` its meaning: after `setChild n op b` the addressed child
                          is `b`, every other slot of the node is untouched, the constructor/class is kept
   C40_error_missing_attr / C40_error_bad_index / C40_error_inner / C40_error_tuple   named error cases
+  C40_parse_render / C40_parse_render_string   the path parser reads back every rendered list of well-formed operations
+  C40_render_injective   distinct well-formed operation lists have distinct paths
 
 `deref`, `updTree`, `WF`, `Ext` are defined in `FdtdxLemmas/C40.lean`.
 -/
 import FdtdxLemmas.C40
+import FdtdxLemmas.C40Parse
 import Mathlib.Tactic.IntervalCases
 
 namespace Fdtdx.C40
@@ -320,6 +323,95 @@ theorem C40_error_tuple (h : Heap) (v a : Nat) (c : Bool) (xs : List Addr) (i : 
     (hn : h.node a = .tuple xs) : asetHeap h v c [.idx i] a = none := by
   simp only [asetHeap, hn, setChild]
   first | done | (split <;> rfl)
+
+
+/-! ### the path parser: `parse (render ops) = ops` -/
+
+theorem tail_form (ops : List Op) : renderTail ops = [] ∨ ∃ r, renderTail ops = '-' :: '>' :: r := by
+  cases ops with
+  | nil => left; rfl
+  | cons op rest => right; exact ⟨_, rfl⟩
+
+theorem parse_tail : ∀ (ops : List Op) (acc : List Op) (fuel : Nat), ops.all wfOp = true → ops.length < fuel →
+    parseLoop fuel false (renderTail ops) acc = some (acc.reverse ++ ops)
+  | [], acc, fuel, _, hf => by
+    cases fuel with
+    | zero => omega
+    | succ f => simp [parseLoop, renderTail]
+  | op :: rest, acc, fuel, hw, hf => by
+    cases fuel with
+    | zero => simp at hf
+    | succ f =>
+      simp only [List.all_cons, Bool.and_eq_true] at hw
+      have hne := renderOp_ne_nil op hw.1
+      have hempty : (renderOp op ++ renderTail rest).isEmpty = false := by
+        cases h : renderOp op with
+        | nil => exact absurd h hne
+        | cons x xs => rfl
+      rw [parseLoop]
+      simp only [renderTail, List.cons_append, Bool.not_false, List.isEmpty_cons, Bool.and_false, Bool.false_eq_true, if_false, sep, hempty]
+      rw [stepOp_render op hw.1 _ (tail_form rest)]
+      simp only
+      rw [parse_tail rest (op :: acc) f hw.2 (by simp at hf; omega)]
+      simp
+
+theorem renderTail_length (ops : List Op) : ops.length ≤ (renderTail ops).length := by
+  induction ops with
+  | nil => simp [renderTail]
+  | cons op rest ih => simp only [renderTail, List.length_cons, List.length_append]; omega
+
+/-- C40_parse_render: every non-empty list of well-formed operations is read back exactly from its rendering
+(`a->b->[0]->['k']`): the parser and the documented syntax agree, for paths of any length. -/
+theorem C40_parse_render (ops : List Op) (hne : ops ≠ []) (hw : ops.all wfOp = true) :
+    parseChars (renderChars ops) = some ops := by
+  cases ops with
+  | nil => exact absurd rfl hne
+  | cons op rest =>
+    simp only [List.all_cons, Bool.and_eq_true] at hw
+    have hn := renderOp_ne_nil op hw.1
+    have hempty : (renderOp op ++ renderTail rest).isEmpty = false := by
+      cases h : renderOp op with
+      | nil => exact absurd h hn
+      | cons x xs => rfl
+    unfold parseChars
+    simp only [renderChars, hempty, Bool.false_eq_true, if_false]
+    rw [parseLoop]
+    simp only [Bool.not_true, Bool.false_and, Bool.false_eq_true, if_false, sep, if_true]
+    rw [stepOp_render op hw.1 _ (tail_form rest)]
+    simp only
+    rw [parse_tail rest [op] _ hw.2 (by
+      have := renderTail_length rest
+      simp only [List.length_append]; omega)]
+    simp
+
+/-- the same on strings, as `TreeClass.aset` receives the path -/
+theorem C40_parse_render_string (ops : List Op) (hne : ops ≠ []) (hw : ops.all wfOp = true) :
+    parseOps (renderPath ops) = some ops := by
+  unfold parseOps renderPath
+  rw [String.toList_ofList]
+  exact C40_parse_render ops hne hw
+
+/-- C40_render_injective: two different well-formed operation lists never render to the same path. -/
+theorem C40_render_injective (ops ops' : List Op) (h1 : ops ≠ []) (h2 : ops' ≠ []) (w1 : ops.all wfOp = true)
+    (w2 : ops'.all wfOp = true) (h : renderPath ops = renderPath ops') : ops = ops' := by
+  have a := C40_parse_render_string ops h1 w1
+  have b := C40_parse_render_string ops' h2 w2
+  rw [h, b] at a
+  exact (Option.some.inj a).symm
+
+/-! #### the well-formedness predicate is what the parser needs: names outside it are rejected or mis-read
+(replayed on the real `_parse_operations` by the harness, stream `not-wf`) -/
+
+example : wfOp (.key "a]b") = false ∧ parseChars (renderChars [.attr "x", .key "a]b"]) = none := by decide
+example : wfOp (.key "a[b") = false ∧ parseChars (renderChars [.attr "x", .key "a[b"]) = none := by decide
+example : wfOp (.key "it's") = false ∧ parseChars (renderChars [.attr "x", .key "it's"]) = none := by decide
+example : wfOp (.attr "a b") = false ∧ parseChars (renderChars [.attr "a b"]) = none := by decide
+example : wfOp (.attr "1a") = false ∧ parseChars (renderChars [.attr "1a"]) = none := by decide
+/-- an attribute name containing the separator is silently read as two attributes -/
+example : wfOp (.attr "a->b") = false ∧ parseChars (renderChars [.attr "a->b"]) = some [.attr "a", .attr "b"] := by decide
+/-- keys may contain the separator, blanks, or be empty -/
+example : [Op.attr "cfg", .idx (-12), .key "a->b c", .key "", .idx 0].all wfOp = true ∧
+    renderPath [.attr "cfg", .idx (-12), .key "a->b c", .key "", .idx 0] = "cfg->[-12]->['a->b c']->['']->[0]" := by decide +kernel
 
 /-! ### non-vacuity: a concrete well-formed heap, a path of length 3 with a negative index, and its result -/
 
